@@ -424,7 +424,7 @@ async fn run_queries(ctx: &Ctx, step: &Value, w: &mut TraceWriter, scn: &Value, 
     for (qi, p) in step["preds"].as_array().unwrap().iter().enumerate() {
         let mut results = vec![];
         for var in &variants {
-            let r: lance::Result<(Vec<i64>, Vec<Value>, Vec<String>)> = async {
+            let r = async {
                 let mut sc = d.scan();
                 sc.project(&["id", "val"])?;
                 if use_expr {
@@ -462,9 +462,17 @@ async fn run_queries(ctx: &Ctx, step: &Value, w: &mut TraceWriter, scn: &Value, 
                         vals.push(ctx.model_of(v, i));
                     }
                 }
-                Ok((ids, vals, nodes))
-            }
-            .await;
+                Ok::<(Vec<i64>, Vec<Value>, Vec<String>), lance::Error>((ids, vals, nodes))
+            };
+            // a panic inside lance is data: record it for this variant and go on with the next one
+            let r = match std::panic::AssertUnwindSafe(r).catch_unwind().await {
+                Ok(r) => r,
+                Err(p) => {
+                    let msg = p.downcast_ref::<String>().cloned().or_else(|| p.downcast_ref::<&str>().map(|s| s.to_string())).unwrap_or_default();
+                    results.push(json!({"name": var["name"], "res": "panic", "text": msg.chars().take(300).collect::<String>(), "ids": [], "vals": [], "nodes": []}));
+                    continue;
+                }
+            };
             match r {
                 Ok((ids, vals, nodes)) => results.push(json!({"name": var["name"], "res": "ok", "ids": ids, "vals": vals, "nodes": nodes})),
                 Err(e) => results.push(json!({"name": var["name"], "res": classify(&e), "text": err_text(&e), "ids": [], "vals": [], "nodes": []})),
